@@ -1,1 +1,167 @@
-pub fn main(_args: &[String]) -> i32 { eprintln!("procs: not built yet"); 2 }
+// C20: start-up validation with the REAL binary built from /repo (no hooks): each case is a
+// configuration file plus command-line arguments; the server must either exit with an
+// error without ever serving, or serve with the effective settings.
+//
+// in : {"id":..,"toml":"...","args":[..],"port":N,"tls":bool,"probe":{"pass":[..],"nick":..,"user":..}}
+// out: {"id":..,"exit":[code]|[],"served":bool,"welcome":[abstract msgs],"stderr":"..."}
+
+use crate::absmsg::abstract_line;
+use crate::core::*;
+use serde_json::{json, Value};
+use std::io::{BufRead, BufReader, BufWriter, Read, Write};
+use std::process::{Command, Stdio};
+use std::time::{Duration, Instant};
+use tokio::io::{AsyncBufReadExt, AsyncWriteExt};
+use tokio::net::TcpStream;
+
+async fn probe(port: u16, tls: bool, p: &Value, server_name: &str) -> (bool, Vec<Value>) {
+    let stream = match TcpStream::connect(("127.0.0.1", port)).await {
+        Ok(s) => s,
+        Err(_) => return (false, vec![]),
+    };
+    stream.set_nodelay(true).ok();
+    let boxed: Box<dyn Duplex> = if tls {
+        match tls_connect(stream).await {
+            Ok(t) => Box::new(t),
+            Err(_) => return (false, vec![]),
+        }
+    } else {
+        Box::new(stream)
+    };
+    let (rd, mut wr) = tokio::io::split(boxed);
+    let mut rd = tokio::io::BufReader::new(rd);
+    let mut script = String::new();
+    if let Some(pw) = p["pass"].as_array().and_then(|a| a.get(0)).and_then(|x| x.as_str()) {
+        script.push_str(&format!("PASS {}\r\n", pw));
+    }
+    script.push_str(&format!(
+        "NICK {}\r\nUSER {} 0 * :Probe\r\n",
+        p["nick"].as_str().unwrap_or("probe"),
+        p["user"].as_str().unwrap_or("pu")
+    ));
+    for extra in p["extra"].as_array().cloned().unwrap_or_default() {
+        script.push_str(extra.as_str().unwrap_or(""));
+        script.push_str("\r\n");
+    }
+    script.push_str("PING done\r\n");
+    if wr.write_all(script.as_bytes()).await.is_err() {
+        return (true, vec![]);
+    }
+    let mut out = vec![];
+    let deadline = Instant::now() + Duration::from_secs(4);
+    let mut line = String::new();
+    loop {
+        line.clear();
+        let left = deadline.saturating_duration_since(Instant::now());
+        if left.is_zero() {
+            break;
+        }
+        match tokio::time::timeout(left, rd.read_line(&mut line)).await {
+            Ok(Ok(n)) if n > 0 => {
+                let msgs = abstract_line("probe", server_name, line.trim_end());
+                let done = msgs.iter().any(|m| m["c"] == "PONG" || m["c"] == "464" || m["c"] == "451" && false);
+                out.extend(msgs);
+                if done {
+                    break;
+                }
+            }
+            _ => {
+                out.push(json!({"to": "probe", "k": "s", "c": "EOF", "cl": "", "src": "", "a": []}));
+                break;
+            }
+        }
+    }
+    (true, out)
+}
+
+fn run_case(rt: &tokio::runtime::Runtime, bin: &str, dir: &str, t: &Value) -> Value {
+    let id = t["id"].as_str().unwrap_or("case").to_string();
+    let cfg_path = format!("{}/{}.toml", dir, id);
+    std::fs::write(&cfg_path, t["toml"].as_str().unwrap_or("")).ok();
+    let port = t["port"].as_u64().unwrap_or(29000) as u16;
+    let mut cmd = Command::new(bin);
+    cmd.arg("-c").arg(&cfg_path);
+    for a in t["args"].as_array().cloned().unwrap_or_default() {
+        cmd.arg(a.as_str().unwrap_or(""));
+    }
+    cmd.current_dir(dir).stdin(Stdio::null()).stdout(Stdio::piped()).stderr(Stdio::piped());
+    cmd.env("RUST_LOG", "error");
+    let mut child = match cmd.spawn() {
+        Ok(c) => c,
+        Err(e) => return json!({"id": id, "error": e.to_string()}),
+    };
+    // wait until it either exits or accepts connections
+    let start = Instant::now();
+    let mut exit: Option<i32> = None;
+    let mut served = false;
+    let mut welcome = vec![];
+    let server_name = t["server_name"].as_str().unwrap_or("irc.irc").to_string();
+    loop {
+        if let Ok(Some(st)) = child.try_wait() {
+            exit = Some(st.code().unwrap_or(-1));
+            break;
+        }
+        if std::net::TcpStream::connect_timeout(&format!("127.0.0.1:{}", port).parse().unwrap(), Duration::from_millis(50)).is_ok() {
+            let (s, w) = rt.block_on(probe(port, t["tls"].as_bool().unwrap_or(false), &t["probe"], &server_name));
+            served = s;
+            welcome = w;
+            break;
+        }
+        if start.elapsed() > Duration::from_millis(2500) {
+            break;
+        }
+        std::thread::sleep(Duration::from_millis(15));
+    }
+    let mut stderr = String::new();
+    if exit.is_none() {
+        let _ = child.kill();
+        let _ = child.wait();
+    }
+    if let Some(mut e) = child.stderr.take() {
+        let mut buf = vec![];
+        let _ = e.read_to_end(&mut buf);
+        stderr = String::from_utf8_lossy(&buf).chars().take(300).collect();
+    }
+    let mut stdout = String::new();
+    if let Some(mut o) = child.stdout.take() {
+        let mut buf = vec![];
+        let _ = o.read_to_end(&mut buf);
+        stdout = String::from_utf8_lossy(&buf).chars().take(300).collect();
+    }
+    json!({"id": id, "exit": exit.map(|c| vec![c]).unwrap_or_default(), "served": served, "welcome": welcome,
+           "stderr": stderr, "stdout": stdout})
+}
+
+pub fn main(args: &[String]) -> i32 {
+    if args.len() < 2 {
+        eprintln!("procs <in.ndjson> <out.ndjson> --bin <server binary> [--dir scratch]");
+        return 2;
+    }
+    let bin = arg_val(args, "--bin").unwrap_or_else(|| "/repo/target/debug/simple-irc-server".to_string());
+    let dir = arg_val(args, "--dir").unwrap_or_else(|| "/verif/work/procs".to_string());
+    std::fs::create_dir_all(&dir).ok();
+    let f = std::fs::File::open(&args[0]).expect("open");
+    let mut w = BufWriter::new(std::fs::File::create(&args[1]).expect("create"));
+    let rt = runtime(2);
+    let cases: Vec<Value> = BufReader::new(f)
+        .lines()
+        .filter_map(|l| l.ok())
+        .filter(|l| !l.trim().is_empty())
+        .map(|l| serde_json::from_str(&l).expect("json"))
+        .collect();
+    for t in cases {
+        let r = if t["genhash"].is_string() {
+            // the binary's own '-g -P <password>'
+            let o = Command::new(&bin).arg("-g").arg("-P").arg(t["genhash"].as_str().unwrap()).output();
+            match o {
+                Ok(o) => json!({"id": t["id"], "hash_stdout": String::from_utf8_lossy(&o.stdout), "exit": [o.status.code().unwrap_or(-1)]}),
+                Err(e) => json!({"id": t["id"], "error": e.to_string()}),
+            }
+        } else {
+            run_case(&rt, &bin, &dir, &t)
+        };
+        writeln!(w, "{}", r).unwrap();
+    }
+    w.flush().unwrap();
+    0
+}
